@@ -2,7 +2,6 @@ package world
 
 import (
 	"encoding/binary"
-	"fmt"
 
 	"github.com/cloudwego/frugal/verifharness/model"
 )
@@ -41,7 +40,7 @@ func applyFault(c *model.Corpus, sd *model.StructDef, op *OpSpec, clean []byte, 
 			return b, "trunc(empty)"
 		}
 		k := r.Intn(len(b))
-		return b[:k], fmt.Sprintf("truncate at %d of %d", k, len(b))
+		return b[:k], model.Sf("truncate at %d of %d", k, len(b))
 	case "flip":
 		n := 1 + r.Intn(3)
 		desc := "flip"
@@ -59,7 +58,7 @@ func applyFault(c *model.Corpus, sd *model.StructDef, op *OpSpec, clean []byte, 
 				v = byte(r.Next())
 			}
 			b[off] = v
-			desc += fmt.Sprintf(" [%d]=%#x", off, v)
+			desc += model.Sf(" [%d]=%#x", off, v)
 		}
 		return b, desc
 	case "count":
@@ -81,7 +80,7 @@ func applyFault(c *model.Corpus, sd *model.StructDef, op *OpSpec, clean []byte, 
 			v = countValues[r.Intn(len(countValues))]
 		}
 		binary.BigEndian.PutUint32(b[p.Off:], uint32(v))
-		return b, fmt.Sprintf("%s at %d: %d -> %d", p.Kind, p.Off, p.Aux, int32(v))
+		return b, model.Sf("%s at %d: %d -> %d", p.Kind, p.Off, p.Aux, int32(v))
 	case "code":
 		p := pick("etype", "ktype", "vtype")
 		if p == nil {
@@ -89,7 +88,7 @@ func applyFault(c *model.Corpus, sd *model.StructDef, op *OpSpec, clean []byte, 
 		}
 		old := b[p.Off]
 		b[p.Off] = otherCode(r, old)
-		return b, fmt.Sprintf("%s at %d: %d -> %d", p.Kind, p.Off, old, b[p.Off])
+		return b, model.Sf("%s at %d: %d -> %d", p.Kind, p.Off, old, b[p.Off])
 	case "ftype":
 		p := pick("ftype", "fid", "ftype", "stop")
 		if p == nil {
@@ -103,14 +102,14 @@ func applyFault(c *model.Corpus, sd *model.StructDef, op *OpSpec, clean []byte, 
 				nv = sd.Fields[r.Intn(len(sd.Fields))].ID
 			}
 			binary.BigEndian.PutUint16(b[p.Off:], nv)
-			return b, fmt.Sprintf("field id at %d: %d -> %d", p.Off, old, nv)
+			return b, model.Sf("field id at %d: %d -> %d", p.Off, old, nv)
 		case "stop":
 			b[p.Off] = otherCode(r, 0)
-			return b, fmt.Sprintf("STOP at %d -> %d", p.Off, b[p.Off])
+			return b, model.Sf("STOP at %d -> %d", p.Off, b[p.Off])
 		}
 		old := b[p.Off]
 		b[p.Off] = otherCode(r, old)
-		return b, fmt.Sprintf("field type at %d: %d -> %d", p.Off, old, b[p.Off])
+		return b, model.Sf("field type at %d: %d -> %d", p.Off, old, b[p.Off])
 	case "splice":
 		// a segment of a message of another type replaces / is inserted into this one
 		other := c.Valid()[r.Intn(len(c.Valid()))]
@@ -133,7 +132,7 @@ func applyFault(c *model.Corpus, sd *model.StructDef, op *OpSpec, clean []byte, 
 		} else {
 			out = append(out, b[at:]...)
 		}
-		return out, fmt.Sprintf("splice %d bytes of a %s message at %d", s1-s0, other.Name, at)
+		return out, model.Sf("splice %d bytes of a %s message at %d", s1-s0, other.Name, at)
 	case "zerotail":
 		if len(b) == 0 {
 			return b, "zerotail(empty)"
@@ -142,13 +141,13 @@ func applyFault(c *model.Corpus, sd *model.StructDef, op *OpSpec, clean []byte, 
 		for i := k; i < len(b); i++ {
 			b[i] = 0
 		}
-		return b, fmt.Sprintf("zero-fill from %d (torn write)", k)
+		return b, model.Sf("zero-fill from %d (torn write)", k)
 	case "garbage":
 		n := 1 + r.Intn(40)
 		for i := 0; i < n; i++ {
 			b = append(b, byte(r.Next()))
 		}
-		return b, fmt.Sprintf("append %d bytes after the message", n)
+		return b, model.Sf("append %d bytes after the message", n)
 	case "bomb":
 		return nestingBomb(c, sd, r)
 	}
@@ -200,7 +199,7 @@ func nestingBomb(c *model.Corpus, sd *model.StructDef, r *model.Rng) ([]byte, st
 			b = append(b, model.WI8, 0, 0, 0, 0)
 		}
 		b = append(b, 0)
-		return b, fmt.Sprintf("nesting bomb depth %d inside unknown field %d", d, id)
+		return b, model.Sf("nesting bomb depth %d inside unknown field %d", d, id)
 	}
 	// known recursive path: repeat the cycle's prefix d times, then close
 	var pre, suf []byte
@@ -216,7 +215,7 @@ func nestingBomb(c *model.Corpus, sd *model.StructDef, r *model.Rng) ([]byte, st
 	for i := 0; i < d; i++ {
 		b = append(b, suf...)
 	}
-	return b, fmt.Sprintf("nesting bomb depth %d x cycle of %d through known fields of %s", d, len(path), sd.Name)
+	return b, model.Sf("nesting bomb depth %d x cycle of %d through known fields of %s", d, len(path), sd.Name)
 }
 
 type pathStep struct{ pre, suf []byte }
